@@ -22,6 +22,7 @@ RULE = (
     "and as literals, in if / unless / elsif / case-when / ternary contexts (exhaustive); truthiness of every value; all and/or/not/paren "
     "trees to depth 3 (thorough 4) over true/false/variables with all truth assignments. Cells the documentation leaves open are counted "
     "as unspecified. Non-trivial = every judged cell (each has a model verdict), distinct by (context, operator, operands)."
+    " Rounds 5-6 added enumerated families: strings holding number and boolean texts as haystacks (the needle is the text a template prints)."
 )
 REQUIRED = [
     ("liquid/builtin/expressions/logical.py", "is_truthy"),
